@@ -1037,7 +1037,7 @@ func c08Check(desc string, sd Dict, body []byte) (res c08Result) {
 	}()
 	// time bound (CPU time of this process, so that a loaded machine does not matter) for decodes
 	// that produce little output (large images legitimately take longer)
-	if el := b2CPU() - started; el > 3*time.Second && res.produced < 4<<20 {
+	if el := b2CPU() - started; el > c08SlowLimit() && res.produced < 4<<20 {
 		fail("slow", "%v of CPU time", el)
 	}
 	runtime.ReadMemStats(&m1)
@@ -1693,4 +1693,13 @@ func TestB2C08DCTFrames(t *testing.T) {
 		start = last + 1
 	}
 	t.Logf("B2-CASES %d", len(all))
+}
+
+// c08SlowLimit is the CPU-time bound for decodes with little output: 3 s, or VERIF_SLOW_MS
+// milliseconds (a development aid for measuring the margin of the clean tree).
+func c08SlowLimit() time.Duration {
+	if v, err := strconv.Atoi(os.Getenv("VERIF_SLOW_MS")); err == nil && v > 0 {
+		return time.Duration(v) * time.Millisecond
+	}
+	return 3 * time.Second
 }
